@@ -1,18 +1,63 @@
 import Pyunicorn.Model.Proto
 import Pyunicorn.Model.LineDist
-/-! Line-protocol driver: one request per line on stdin, one answer per line. -/
-open Pyunicorn Pyunicorn.Proto
+import Pyunicorn.Model.LineDistSeq
+/-! Line-protocol driver: one request per line on stdin, one answer per line.
+The histogram requests are answered by the kernels *regenerated from the source*
+(`Generated/StructC08.lean`); `Properties/C08.lean` proves them equal to the hand model. -/
+open Pyunicorn Pyunicorn.Proto Pyunicorn.Generated Pyunicorn.LineDist
+
+def v? (s : String) : Recurrence.V := if s == "nan" then none else rat? s
+def vMat (s : String) : List (List Recurrence.V) :=
+  (splitTok s ";").map fun r => (splitTok r ",").map v?
+def pairs (s : String) : List (Rat × Rat) :=
+  (ratMat s).filterMap fun r => match r with | [a, b] => some (a, b) | _ => none
+def zeros (n : Nat) : List Nat := List.replicate n 0
 
 def answer (toks : List String) : String :=
   match toks with
-  | ["vertline", n, r] => showNats (LineDist.vertline (boolMat r) n.toNat!)
-  | ["whitevertline", n, r] => showNats (LineDist.whiteVertline (boolMat r) n.toNat!)
-  | ["diagline", n, r] => showNats (LineDist.diagline (boolMat r) n.toNat!)
-  | ["vertline_mv", n, r, m] => showNats (LineDist.vertlineMV (boolMat r) (bools m) n.toNat!)
-  | ["diagline_mv", n, r, m] => showNats (LineDist.diaglineMV (boolMat r) (bools m) n.toNat!)
+  | ["vertline", n, r] =>
+      showNats (StructC08._vertline_dist n.toNat! (zeros n.toNat!) (accR (boolMat r)))
+  | ["whitevertline", n, r] =>
+      showNats (StructC08._white_vertline_dist n.toNat! (zeros n.toNat!) (accR (boolMat r)))
+  | ["diagline", n, r] =>
+      showNats (StructC08._diagline_dist n.toNat! (zeros n.toNat!) (accR (boolMat r)))
+  | ["vertline_mv", n, r, m] =>
+      showNats (StructC08._vertline_dist_missingvalues n.toNat! (zeros n.toNat!) (accR (boolMat r))
+        (accM (bools m)))
+  | ["diagline_mv", n, r, m] =>
+      showNats (StructC08._diagline_dist_missingvalues n.toNat! (zeros n.toNat!) (accR (boolMat r))
+        (accM (bools m)))
+  | ["vertline_seq", n, dim, e, eps] =>
+      showNats (StructC08._vertline_dist_sequential n.toNat! (zeros n.toNat!) (accE (vMat e))
+        (v? eps) dim.toNat!)
+  | ["diagline_seq", n, dim, e, eps] =>
+      showNats (StructC08._diagline_dist_sequential n.toNat! (zeros n.toNat!) (accE (vMat e))
+        (v? eps) dim.toNat!)
+  | ["vertline_seq_mv", n, dim, e, eps, m] =>
+      showNats (StructC08._vertline_dist_sequential_missingvalues n.toNat! (zeros n.toNat!)
+        (accE (vMat e)) (v? eps) dim.toNat! (accM (bools m)))
+  | ["diagline_seq_mv", n, dim, e, eps, m] =>
+      showNats (StructC08._diagline_dist_sequential_missingvalues n.toNat! (zeros n.toNat!)
+        (accE (vMat e)) (v? eps) dim.toNat! (accM (bools m)))
+  -- the hand model (round 1), kept executable
+  | ["hand", "vertline", n, r] => showNats (LineDist.vertline (boolMat r) n.toNat!)
+  | ["hand", "whitevertline", n, r] => showNats (LineDist.whiteVertline (boolMat r) n.toNat!)
+  | ["hand", "diagline", n, r] => showNats (LineDist.diagline (boolMat r) n.toNat!)
+  | ["hand", "vertline_mv", n, r, m] =>
+      showNats (LineDist.vertlineMV (boolMat r) (bools m) n.toNat!)
+  | ["hand", "diagline_mv", n, r, m] =>
+      showNats (LineDist.diaglineMV (boolMat r) (bools m) n.toNat!)
   | ["scalars", lmin, h] =>
       let s := LineDist.scalars lmin.toNat! (nats h)
       s!"{s.ratioNum} {s.ratioDen} {s.avgDen} {s.maxLen} {showNats s.weights}"
+  -- bootstrap: `resample M hist draws` -> resampled histogram, draw pairs consumed
+  | ["resample", m, h, d] =>
+      let hist := nats h
+      let L := maxLen hist
+      let dist := hist.take L
+      let used := if L == 0 then 0 else
+        rejConsumed (normDist dist) dist.length m.toNat! (pairs d) ⟨0, zeros dist.length⟩
+      s!"{showNats (resample hist m.toNat! (pairs d))} {used}"
   | _ => "bad-request"
 
 def main : IO Unit := runDriver answer
